@@ -152,8 +152,8 @@ def _job(job) -> List[Dict[str, Any]]:
     if ls == "truthy":
         if not clamp:
             inst("R6.5", "VIOLATED", f"limit_sigma cap ({case})", "with limit_sigma in force no store caps the posterior sigma")
-        last_kernel = max((i for i, _ in kern), default=-1)
-        covering = [i for i, ev in enumerate(evs) if ev.kind == "strong-update" and ev.data["loc"] == "IN.player" and ev.data["field"] == "sigma" and i > last_kernel]
+        first_clamp = min((i for i, _ in clamp), default=len(evs))
+        covering = [i for i, ev in enumerate(evs) if ev.kind == "strong-update" and ev.data["loc"] == "IN.player" and ev.data["field"] == "sigma" and i > first_clamp]
         if clamp:
             inst("R6.5", "HOLDS" if covering else "VIOLATED", f"the cap visits every returned player ({case})",
                  "" if covering else "the capping stores are not an unconditional full traversal of all teams and players after the update (a team or player is skipped)")
